@@ -1,14 +1,22 @@
 package main
 
-// C15 — epoch clock. Drives the real x/epochs BeginBlocker through app.BeginBlock over seeded
-// timelines (equal times, sub-duration steps, boundary-exact times, multi-duration gaps,
-// identifiers registered mid-count or with future start times), prints AllEpochInfos and the
-// epoch_end/epoch_start events of every block for the Lean model to reproduce, and evaluates
-// the property's predicates directly on the real state (monitors).
+// C15 — epoch clock. Drives the real x/epochs module from the genesis list on: InitGenesis
+// (AddEpochInfo of every entry) and BeginBlocker through app.BeginBlock of EVERY block including
+// block 1, over seeded timelines (equal times, sub-duration steps, boundary-exact times,
+// multi-duration gaps). The genesis entries are drawn from everything EpochInfo.Validate accepts
+// (number, flag, current start time, start height, start time are independent fields: an identifier
+// may arrive mid-count with counting started or NOT started, with a start time before / at / after
+// the first block, unset, aligned or not) plus a stream of entries InitGenesis must drop (rejected by
+// Validate, duplicate identifiers). Prints the store after InitGenesis, AllEpochInfos and the
+// epoch_end/epoch_start events of every block for the Lean model to reproduce (Model/EpochsGenesis:
+// register / initGenesis, Model/Epochs: beginBlocker), and evaluates the property's predicates
+// directly on the real state (monitors).
 
 import (
 	"encoding/json"
 	"fmt"
+	"math/big"
+	"sort"
 	"strconv"
 	"strings"
 	"time"
@@ -20,6 +28,8 @@ import (
 
 func init() { register("epochs", domEpochs) }
 
+// tns: nanoseconds since the Unix epoch, the zero time.Time as 0 (shared with the domains whose
+// models never look at an unset time: distribution, epochsorder)
 func tns(t time.Time) int64 {
 	if t.IsZero() {
 		return 0
@@ -27,14 +37,43 @@ func tns(t time.Time) int64 {
 	return t.UnixNano()
 }
 
+// tnsX: exact nanoseconds since the Unix epoch for any time.Time (the zero time is
+// -62135596800000000000 = Model/EpochsGenesis.lean: zeroTime; UnixNano is undefined out there)
+func tnsX(t time.Time) string {
+	x := new(big.Int).Mul(big.NewInt(t.Unix()), big.NewInt(1_000_000_000))
+	return x.Add(x, big.NewInt(int64(t.Nanosecond()))).String()
+}
+
+func epochID(s string) string {
+	if s == "" {
+		return "<empty>"
+	}
+	return s
+}
+
+func ebit(b bool) int {
+	if b {
+		return 1
+	}
+	return 0
+}
+
 func fmtEpochInfos(infos []epochstypes.EpochInfo) string {
 	parts := make([]string, 0, len(infos))
 	for _, e := range infos {
-		st := 0
-		if e.EpochCountingStarted {
-			st = 1
-		}
-		parts = append(parts, fmt.Sprintf("%s=%d,%d,%d,%d", e.Identifier, e.CurrentEpoch, tns(e.CurrentEpochStartTime), st, e.CurrentEpochStartHeight))
+		parts = append(parts, fmt.Sprintf("%s=%d,%s,%d,%d", epochID(e.Identifier), e.CurrentEpoch, tnsX(e.CurrentEpochStartTime), ebit(e.EpochCountingStarted), e.CurrentEpochStartHeight))
+	}
+	return strings.Join(parts, ";")
+}
+
+func fmtEpochFields(e epochstypes.EpochInfo) string {
+	return fmt.Sprintf("%s,%d,%d,%s,%d,%d", tnsX(e.StartTime), int64(e.Duration), e.CurrentEpoch, tnsX(e.CurrentEpochStartTime), ebit(e.EpochCountingStarted), e.CurrentEpochStartHeight)
+}
+
+func fmtEpochInfosFull(infos []epochstypes.EpochInfo) string {
+	parts := make([]string, 0, len(infos))
+	for _, e := range infos {
+		parts = append(parts, epochID(e.Identifier)+"="+fmtEpochFields(e))
 	}
 	return strings.Join(parts, ";")
 }
@@ -58,15 +97,150 @@ func epochEvents(evs []abci.Event) []string {
 		if ev.Type == epochstypes.EventTypeEpochEnd {
 			k = "E"
 		}
-		out = append(out, k+":"+id+":"+num)
+		out = append(out, k+":"+epochID(id)+":"+num)
 	}
 	return out
 }
 
 type epochTrack struct {
 	fromUnstarted bool
-	lastStarted   int64 // last epoch number for which a start was seen (0 = none)
-	known         bool
+	first         int64 // number the identifier was registered with
+	lastStarted   int64 // last epoch number for which a start was seen (registered number if counting had started)
+	known         bool  // a start of lastStarted happened (before the history or in it)
+	starts, ends  int
+}
+
+var epochDurChoices = []time.Duration{1, 7, time.Second, 7 * time.Second, time.Minute, 61 * time.Minute, 24 * time.Hour}
+
+// epochStartChoice: where the configured start time lies relative to the genesis time gt and the
+// time of block 1 (gt+1s, chain.go): unset, before genesis, exactly at genesis, exactly at block 1
+// and 1 ns around it, a few seconds or a few durations ahead.
+func epochStartChoice(rng *RNG, gt time.Time, dur time.Duration) (time.Time, string) {
+	switch rng.Intn(8) {
+	case 0:
+		return time.Time{}, "unset"
+	case 1:
+		return gt.Add(-time.Duration(1+rng.Intn(1000)) * time.Second), "past"
+	case 2:
+		return gt.Add(-time.Duration(1+rng.Intn(100)) * dur), "past"
+	case 3:
+		return gt, "genesis"
+	case 4:
+		return gt.Add(time.Second + time.Duration(rng.Intn(3)-1)), "block1"
+	case 5:
+		return gt.Add(time.Duration(2+rng.Intn(40)) * time.Second), "future"
+	case 6:
+		return gt.Add(time.Second + time.Duration(1+rng.Intn(3))*dur), "future"
+	}
+	return gt.Add(time.Duration(rng.Intn(5_000_000_000))), "near"
+}
+
+// epochStaleNumber: a number an entry copied from another network's export may carry
+func epochStaleNumber(rng *RNG) int64 {
+	switch rng.Intn(6) {
+	case 0:
+		return 1
+	case 1:
+		return 2
+	case 2:
+		return 1 << 31
+	case 3:
+		return 1 << 62
+	}
+	return int64(1 + rng.Intn(500))
+}
+
+// genEpochEntry draws one genesis entry that EpochInfo.Validate accepts. shape names the class for
+// the distribution printed in the report.
+func genEpochEntry(rng *RNG, gt time.Time, id string) (e epochstypes.EpochInfo, shape string) {
+	e = epochstypes.EpochInfo{Identifier: id, Duration: epochDurChoices[rng.Intn(len(epochDurChoices))]}
+	switch rng.Pick(1, 1, 1, 1, 1, 2, 4, 2) {
+	case 0: // zero start time => genesis time
+		return e, "fresh:unset"
+	case 1:
+		e.StartTime = gt.Add(-time.Duration(rng.Intn(1000)) * time.Second)
+		return e, "fresh:past"
+	case 2:
+		e.StartTime = gt.Add(time.Duration(rng.Intn(40)) * time.Second)
+		return e, "fresh:future"
+	case 3:
+		e.StartTime = gt.Add(time.Duration(rng.Intn(3)) * e.Duration)
+		return e, "fresh:future"
+	case 4: // mid-count, counting started, start times lined up
+		e.StartTime = gt.Add(-time.Duration(rng.Intn(100)) * e.Duration)
+		e.EpochCountingStarted = true
+		e.CurrentEpoch = int64(1 + rng.Intn(50))
+		e.CurrentEpochStartTime = e.StartTime.Add(time.Duration(e.CurrentEpoch-1) * e.Duration)
+		e.CurrentEpochStartHeight = int64(rng.Intn(5))
+		return e, "running:aligned"
+	case 5: // mid-count, counting started, with a start time that does NOT line up with the current
+		// epoch's start (exported and re-imported with its StartTime left unset, or a schedule that
+		// drifted): only CurrentEpochStartTime + Duration decides the next tick
+		e.EpochCountingStarted = true
+		e.CurrentEpoch = int64(2 + rng.Intn(50))
+		e.CurrentEpochStartTime = gt.Add(-time.Duration(rng.Intn(3)) * e.Duration / 2)
+		e.CurrentEpochStartHeight = int64(rng.Intn(5))
+		switch rng.Intn(3) {
+		case 0: // unset: AddEpochInfo fills in the import block's time
+		case 1:
+			e.StartTime = gt.Add(-time.Duration(1+rng.Intn(1000)) * time.Second)
+		case 2:
+			e.StartTime = e.CurrentEpochStartTime.Add(-time.Duration(e.CurrentEpoch+int64(rng.Intn(5))) * e.Duration)
+		}
+		return e, "running:unaligned"
+	case 6: // mid-count NUMBER, counting NOT started ("the flag is independent of the epoch number"):
+		// an entry copied from an export with the flag / the start time edited. The first block at or
+		// after the start time starts epoch 1 whatever the entry carries.
+		e.CurrentEpoch = epochStaleNumber(rng)
+		var lbl string
+		e.StartTime, lbl = epochStartChoice(rng, gt, e.Duration)
+		switch rng.Intn(4) {
+		case 0: // current start time unset
+		case 1: // what the exporting chain had
+			e.CurrentEpochStartTime = gt.Add(-time.Duration(rng.Intn(5)) * e.Duration / 2)
+		case 2:
+			e.CurrentEpochStartTime = gt.Add(time.Duration(1+rng.Intn(100)) * time.Second)
+		case 3:
+			e.CurrentEpochStartTime = gt.Add(-time.Duration(400+rng.Intn(400)) * 24 * time.Hour)
+		}
+		if rng.Bool() {
+			e.CurrentEpochStartHeight = int64(1 + rng.Intn(1000))
+		}
+		return e, "stale-count:" + lbl
+	}
+	// every field on its own, within what Validate accepts
+	var lbl string
+	e.StartTime, lbl = epochStartChoice(rng, gt, e.Duration)
+	e.EpochCountingStarted = rng.Bool()
+	switch rng.Intn(3) {
+	case 0:
+	case 1:
+		e.CurrentEpoch = epochStaleNumber(rng)
+		if e.EpochCountingStarted && e.CurrentEpoch > 1<<40 {
+			e.CurrentEpoch = int64(1 + rng.Intn(500))
+		}
+	case 2:
+		e.CurrentEpoch = int64(rng.Intn(3))
+	}
+	switch rng.Intn(4) {
+	case 0:
+	case 1:
+		e.CurrentEpochStartTime = gt.Add(-time.Duration(rng.Intn(5)) * e.Duration / 2)
+	case 2:
+		e.CurrentEpochStartTime = gt.Add(time.Duration(rng.Intn(3))*e.Duration + time.Duration(rng.Intn(3)))
+	case 3:
+		e.CurrentEpochStartTime = gt.Add(-time.Duration(1+rng.Intn(30)) * 24 * time.Hour)
+	}
+	e.CurrentEpochStartHeight = int64(rng.Intn(3))
+	if e.EpochCountingStarted {
+		return e, "free:started:" + lbl
+	}
+	return e, "free:unstarted:" + lbl
+}
+
+// epochValid: EpochInfo.Validate restated (the monitor does not ask the code under test)
+func epochValid(e epochstypes.EpochInfo) bool {
+	return e.Identifier != "" && e.Duration > 0 && e.CurrentEpoch >= 0 && e.CurrentEpochStartHeight >= 0
 }
 
 func domEpochs(env *Env) error {
@@ -74,143 +248,152 @@ func domEpochs(env *Env) error {
 	maxBlocks := env.Int("blocks", 80)
 	rng := NewRNG(env.Report.Seed)
 	env.Report.Domain = "epochs"
-	durChoices := []time.Duration{1, 7, time.Second, 7 * time.Second, time.Minute, 61 * time.Minute, 24 * time.Hour}
 	for hi := 0; hi < n; hi++ {
 		var hist []string
-		cfg := DefaultCfg(env.Report.Seed*1000 + uint64(hi))
-		nExtra := rng.Intn(4)
-		var extra []epochstypes.EpochInfo
-		for i := 0; i < nExtra; i++ {
-			e := epochstypes.EpochInfo{Identifier: fmt.Sprintf("x%d", i), Duration: durChoices[rng.Intn(len(durChoices))]}
-			switch rng.Intn(7) {
-			case 5, 6: // mid-count, with a start time that does NOT line up with the current epoch's
-				// start (an identifier exported and re-imported with its StartTime left unset, or a
-				// schedule that drifted): only CurrentEpochStartTime + Duration decides the next tick
-				e.EpochCountingStarted = true
-				e.CurrentEpoch = int64(2 + rng.Intn(50))
-				e.CurrentEpochStartTime = cfg.InitTime.Add(-time.Duration(rng.Intn(3)) * e.Duration / 2)
-				e.CurrentEpochStartHeight = int64(rng.Intn(5))
-				switch rng.Intn(3) {
-				case 0: // unset: AddEpochInfo fills in the import block's time
-				case 1:
-					e.StartTime = cfg.InitTime.Add(-time.Duration(1+rng.Intn(1000)) * time.Second)
-				case 2:
-					e.StartTime = e.CurrentEpochStartTime.Add(-time.Duration(e.CurrentEpoch+int64(rng.Intn(5))) * e.Duration)
-				}
-			case 0: // zero start time => genesis time
-			case 1:
-				e.StartTime = cfg.InitTime.Add(-time.Duration(rng.Intn(1000)) * time.Second)
-			case 2:
-				e.StartTime = cfg.InitTime.Add(time.Duration(rng.Intn(40)) * time.Second)
-			case 3:
-				e.StartTime = cfg.InitTime.Add(time.Duration(rng.Intn(3)) * e.Duration)
-			case 4: // mid-count
-				e.StartTime = cfg.InitTime.Add(-time.Duration(rng.Intn(100)) * e.Duration)
-				e.EpochCountingStarted = true
-				e.CurrentEpoch = int64(1 + rng.Intn(50))
-				e.CurrentEpochStartTime = e.StartTime.Add(time.Duration(e.CurrentEpoch-1) * e.Duration)
-				e.CurrentEpochStartHeight = int64(rng.Intn(5))
-			}
-			extra = append(extra, e)
-		}
-		shrink := rng.Intn(3) == 0
-		cfg.Mutate = func(c *Chain, gs map[string]json.RawMessage) {
-			g := epochstypes.DefaultGenesis()
-			if shrink { // shorter default identifiers so that they tick often
-				for i := range g.Epochs {
-					g.Epochs[i].Duration = durChoices[2+rng.Intn(3)]
-				}
-			}
-			g.Epochs = append(g.Epochs, extra...)
-			gs[epochstypes.ModuleName] = c.App.AppCodec().MustMarshalJSON(g)
-		}
-		// NewChain already runs BeginBlock of block 1; we need the state *before* it for the
-		// model, so reconstruct: export after InitChain is not available, hence we start the
-		// model from the state after block 1's BeginBlock and feed blocks 2.. to both sides.
-		c := NewChain(cfg)
-		infos := c.App.EpochsKeeper.AllEpochInfos(c.Ctx)
-		// the configured start time of an identifier is kept as registered (only an UNSET start time
-		// is replaced, by the registration block's time): "becomes 1 in the first block at or after
-		// its start time" and "n-th start = start + (n-1) x duration" are about the configured time
-		env.Eval("C15.start-time")
-		for _, x := range extra {
-			for _, e := range infos {
-				if e.Identifier != x.Identifier {
-					continue
-				}
-				if !x.StartTime.IsZero() && !e.StartTime.Equal(x.StartTime) {
-					env.Violate("C15.start-time", "start-time-replaced", fmt.Sprintf("%s registered with start time %s, stored %s", x.Identifier, x.StartTime.UTC(), e.StartTime.UTC()), hist)
-				}
-				if x.StartTime.IsZero() && !e.StartTime.Equal(cfg.InitTime) && !e.StartTime.Equal(c.Header.Time) {
-					env.Violate("C15.start-time", "unset-start-time", fmt.Sprintf("%s registered without start time, stored %s (genesis time %s)", x.Identifier, e.StartTime.UTC(), cfg.InitTime.UTC()), hist)
-				}
-			}
-		}
-		op := "epoch.reset"
-		env.Op(op, "ok")
-		hist = append(hist, op)
-		tracks := map[string]*epochTrack{}
-		for _, e := range infos {
-			st := 0
-			if e.EpochCountingStarted {
-				st = 1
-			}
-			op = fmt.Sprintf("epoch.add %s %d %d %d %d %d %d", e.Identifier, tns(e.StartTime), int64(e.Duration), e.CurrentEpoch, tns(e.CurrentEpochStartTime), st, e.CurrentEpochStartHeight)
-			env.Op(op, "ok")
-			hist = append(hist, op)
-			tracks[e.Identifier] = &epochTrack{fromUnstarted: !e.EpochCountingStarted, lastStarted: e.CurrentEpoch, known: e.EpochCountingStarted}
-		}
-		nb := 10 + rng.Intn(maxBlocks)
-		ticks := 0
-		for b := 0; b < nb; b++ {
-			prev := c.App.EpochsKeeper.AllEpochInfos(c.Ctx)
-			now := c.Header.Time
-			var d time.Duration
-			switch rng.Pick(2, 3, 3, 4, 3, 2) {
-			case 0:
-				d = 0
-			case 1:
-				d = time.Duration(1 + rng.Intn(3))
-			case 2:
-				d = time.Duration(1+rng.Intn(30)) * time.Second
-			case 3: // aim at a boundary of some identifier: exactly, one ns before, one ns after
-				e := prev[rng.Intn(len(prev))]
-				target := e.CurrentEpochStartTime.Add(e.Duration)
-				if !e.EpochCountingStarted {
-					target = e.StartTime
-				}
-				target = target.Add(time.Duration(rng.Intn(3) - 1))
-				if target.After(now) && target.Sub(now) < 400*24*time.Hour {
-					d = target.Sub(now)
-				} else {
-					d = time.Duration(rng.Intn(5))
-				}
-			case 4: // multi-duration gap
-				e := prev[rng.Intn(len(prev))]
-				d = time.Duration(1+rng.Intn(5))*e.Duration + time.Duration(rng.Intn(3))
-				if d > 60*24*time.Hour {
-					d = 60 * 24 * time.Hour
-				}
-			case 5:
-				d = time.Duration(rng.Intn(3)) * time.Hour
-			}
-			r := c.EndAndBegin(d)
-			if r.Halt != "" {
-				env.Violate("C15.halt", "halt", "block processing panicked: "+r.Halt, hist)
-				break
-			}
-			cur := c.App.EpochsKeeper.AllEpochInfos(c.Ctx)
-			evs := epochEvents(r.Begin.Events)
-			op = fmt.Sprintf("epoch.block %d %d", c.Header.Time.UnixNano(), c.Header.Height)
-			obs := fmtEpochInfos(cur) + "|" + strings.Join(evs, ",")
+		emit := func(op, obs string) {
 			env.Op(op, obs)
 			hist = append(hist, op)
-			ticks += len(evs)
-			// ---- monitors on the real state
-			bt := c.Header.Time
+		}
+		cfg := DefaultCfg(env.Report.Seed*1000 + uint64(hi))
+		gt := cfg.InitTime
+		directed := hi < 2
+		var extra []epochstypes.EpochInfo
+		if directed {
+			// directed: identifiers registered with a number from elsewhere and counting not started —
+			// start time ahead / unset (= genesis time, first tick in block 1) / exactly block 1 / past
+			k := int64(5 + hi*37)
+			extra = []epochstypes.EpochInfo{
+				{Identifier: "s0", Duration: 7 * time.Second, StartTime: gt.Add(10 * time.Second), CurrentEpoch: k},
+				{Identifier: "s1", Duration: time.Minute, CurrentEpoch: k + 1, CurrentEpochStartHeight: 9},
+				{Identifier: "s2", Duration: 7 * time.Second, StartTime: gt.Add(time.Second), CurrentEpoch: k + 2,
+					CurrentEpochStartTime: gt.Add(-time.Hour), CurrentEpochStartHeight: 3},
+				{Identifier: "s3", Duration: time.Second, StartTime: gt.Add(-3 * time.Second), CurrentEpoch: 1,
+					CurrentEpochStartTime: gt.Add(-3 * time.Second)},
+			}
+			env.Outcome("entry:directed-stale-count")
+		} else {
+			nExtra := rng.Intn(4)
+			for i := 0; i < nExtra; i++ {
+				e, shape := genEpochEntry(rng, gt, fmt.Sprintf("x%d", i))
+				env.Outcome("entry:" + shape)
+				extra = append(extra, e)
+			}
+		}
+		g := epochstypes.DefaultGenesis()
+		if !directed && rng.Intn(3) == 0 { // shorter default identifiers so that they tick often
+			for i := range g.Epochs {
+				g.Epochs[i].Duration = epochDurChoices[2+rng.Intn(3)]
+			}
+		}
+		g.Epochs = append(g.Epochs, extra...)
+		// the stream InitGenesis must drop: entries Validate rejects, identifiers already in the list
+		// (InitGenesis discards AddEpochInfo's error; only `validate-genesis` of the CLI would complain)
+		if !directed && rng.Intn(4) == 0 {
+			for j := 1 + rng.Intn(2); j > 0; j-- {
+				base := g.Epochs[rng.Intn(len(g.Epochs))]
+				bad, shape := genEpochEntry(rng, gt, fmt.Sprintf("y%d", j))
+				switch rng.Intn(6) {
+				case 0:
+					bad.Identifier, shape = base.Identifier, "dropped:duplicate"
+				case 1:
+					bad.Duration, shape = 0, "dropped:duration0"
+				case 2:
+					bad.Duration, shape = -time.Duration(1+rng.Intn(1000)), "dropped:duration<0"
+				case 3:
+					bad.CurrentEpoch, shape = -int64(1+rng.Intn(5)), "dropped:number<0"
+				case 4:
+					bad.CurrentEpochStartHeight, shape = -int64(1+rng.Intn(5)), "dropped:height<0"
+				case 5:
+					bad.Identifier, shape = "", "dropped:no-identifier"
+				}
+				env.Outcome("entry:" + shape)
+				g.Epochs = append(g.Epochs, bad)
+			}
+		}
+		configured := append([]epochstypes.EpochInfo{}, g.Epochs...)
+		// the genesis list goes into the history before the chain boots: a halt of InitChain / block 1
+		// (crash.go) then carries it
+		emit(fmt.Sprintf("epoch.reset %s 0", tnsX(gt)), "ok")
+		for _, e := range configured {
+			emit(fmt.Sprintf("epoch.reg %s %s", epochID(e.Identifier), strings.ReplaceAll(fmtEpochFields(e), ",", " ")), "ok")
+		}
+		cfg.Mutate = func(c *Chain, gs map[string]json.RawMessage) {
+			gs[epochstypes.ModuleName] = c.App.AppCodec().MustMarshalJSON(g)
+		}
+		var registered []epochstypes.EpochInfo
+		cfg.AfterInit = func(c *Chain) { registered = c.App.EpochsKeeper.AllEpochInfos(c.Ctx) }
+		c := NewChain(cfg) // InitChain, AfterInit, BeginBlock of block 1
+		emit("epoch.init", fmtEpochInfosFull(registered))
+
+		// ---- monitor: what InitGenesis stored. Expected store computed here from the configured list:
+		// an entry is stored iff Validate accepts it and its identifier is not stored yet; stored as
+		// configured except that an UNSET start time becomes the genesis time and an unset start height
+		// the height of InitChain (0). "Becomes 1 in the first block at or after its start time" and
+		// "n-th start = start + (n-1) x duration" are about the configured start time; number, flag and
+		// current start time are whatever the entry says.
+		want := map[string]epochstypes.EpochInfo{}
+		var wantIDs []string
+		for _, x := range configured {
+			if !epochValid(x) {
+				continue
+			}
+			if _, dup := want[x.Identifier]; dup {
+				continue
+			}
+			want[x.Identifier] = x
+			wantIDs = append(wantIDs, x.Identifier)
+		}
+		sort.Strings(wantIDs)
+		env.Eval("C15.start-time")
+		env.Eval("C15.genesis")
+		seen := map[string]bool{}
+		for i, e := range registered {
+			x, ok := want[e.Identifier]
+			if !ok || seen[e.Identifier] {
+				env.Violate("C15.genesis", "entry-unexpected", fmt.Sprintf("%q is in the store after InitGenesis: not a valid first entry of the genesis list (%s)", e.Identifier, fmtEpochFields(e)), hist)
+				continue
+			}
+			seen[e.Identifier] = true
+			if i < len(wantIDs) && wantIDs[i] != e.Identifier && len(registered) == len(wantIDs) {
+				env.Violate("C15.genesis", "store-order", fmt.Sprintf("store position %d holds %q, key order says %q", i, e.Identifier, wantIDs[i]), hist)
+			}
+			if !x.StartTime.IsZero() && !e.StartTime.Equal(x.StartTime) {
+				env.Violate("C15.start-time", "start-time-replaced", fmt.Sprintf("%s registered with start time %s, stored %s", x.Identifier, x.StartTime.UTC(), e.StartTime.UTC()), hist)
+			}
+			if x.StartTime.IsZero() && !e.StartTime.Equal(gt) {
+				env.Violate("C15.start-time", "unset-start-time", fmt.Sprintf("%s registered without start time, stored %s (genesis time %s)", x.Identifier, e.StartTime.UTC(), gt.UTC()), hist)
+			}
+			if e.Duration != x.Duration || e.CurrentEpoch != x.CurrentEpoch || e.EpochCountingStarted != x.EpochCountingStarted ||
+				!e.CurrentEpochStartTime.Equal(x.CurrentEpochStartTime) || e.CurrentEpochStartHeight != x.CurrentEpochStartHeight {
+				env.Violate("C15.genesis", "entry-altered", fmt.Sprintf("%s configured %s, stored %s", x.Identifier, fmtEpochFields(x), fmtEpochFields(e)), hist)
+			}
+		}
+		for _, id := range wantIDs {
+			if !seen[id] {
+				env.Violate("C15.genesis", "entry-missing", fmt.Sprintf("%q (%s) is valid and first of its identifier in the genesis list, not in the store after InitGenesis", id, fmtEpochFields(want[id])), hist)
+			}
+		}
+
+		tracks := map[string]*epochTrack{}
+		for _, e := range registered {
+			tracks[e.Identifier] = &epochTrack{fromUnstarted: !e.EpochCountingStarted, first: e.CurrentEpoch, lastStarted: e.CurrentEpoch, known: e.EpochCountingStarted}
+			if !e.EpochCountingStarted && e.CurrentEpoch > 0 {
+				env.Note("identifiers registered with a number > 0 and counting not started")
+			}
+		}
+		ticks := 0
+		violated := false
+		// ---- monitors on the real state, one block: prev = AllEpochInfos before the block's BeginBlock
+		checkBlock := func(prev, cur []epochstypes.EpochInfo, evs []string, bt time.Time) {
 			env.Eval("C15.step")
+			nv := len(env.Report.Violations)
 			if len(cur) != len(prev) {
 				env.Violate("C15.step", "ids-changed", "identifier set changed", hist)
+			}
+			perID := map[string][]string{}
+			for _, ev := range evs {
+				f := strings.Split(ev, ":")
+				perID[f[1]] = append(perID[f[1]], f[0]+":"+f[2])
 			}
 			for i := range cur {
 				if i >= len(prev) {
@@ -218,14 +401,23 @@ func domEpochs(env *Env) error {
 				}
 				p, q := prev[i], cur[i]
 				dlt := q.CurrentEpoch - p.CurrentEpoch
+				// every stored identifier is valid (C15.genesis), so Validate's skip never applies
 				shouldFirst := !p.EpochCountingStarted && !bt.Before(p.StartTime)
 				shouldNext := p.EpochCountingStarted && !bt.Before(p.StartTime) && bt.After(p.CurrentEpochStartTime.Add(p.Duration))
+				var wantEvs string
 				switch {
 				case shouldFirst:
+					if p.CurrentEpoch > 0 {
+						env.Outcome("first-tick:number>0-at-registration")
+					} else {
+						env.Outcome("first-tick:number=0")
+					}
+					wantEvs = "S:1"
 					if q.CurrentEpoch != 1 || !q.EpochCountingStarted || !q.CurrentEpochStartTime.Equal(p.StartTime) {
-						env.Violate("C15.step", "first", fmt.Sprintf("%s: first epoch not started at start time: %+v", p.Identifier, q), hist)
+						env.Violate("C15.step", "first", fmt.Sprintf("%s: block time %s is at or after its start time %s and counting had not started: the first epoch must be number 1 starting at the start time; stored %s (before the block: %s)", p.Identifier, bt.UTC(), p.StartTime.UTC(), fmtEpochFields(q), fmtEpochFields(p)), hist)
 					}
 				case shouldNext:
+					wantEvs = fmt.Sprintf("E:%d,S:%d", p.CurrentEpoch, p.CurrentEpoch+1)
 					if dlt != 1 || !q.CurrentEpochStartTime.Equal(p.CurrentEpochStartTime.Add(p.Duration)) {
 						env.Violate("C15.step", "advance", fmt.Sprintf("%s: epoch must advance by one: %d -> %d", p.Identifier, p.CurrentEpoch, q.CurrentEpoch), hist)
 					}
@@ -233,6 +425,14 @@ func domEpochs(env *Env) error {
 					if dlt != 0 || !q.CurrentEpochStartTime.Equal(p.CurrentEpochStartTime) || q.EpochCountingStarted != p.EpochCountingStarted {
 						env.Violate("C15.step", "spurious", fmt.Sprintf("%s: epoch changed without its end being passed: %d -> %d", p.Identifier, p.CurrentEpoch, q.CurrentEpoch), hist)
 					}
+				}
+				if q.Identifier != p.Identifier || !q.StartTime.Equal(p.StartTime) || q.Duration != p.Duration {
+					env.Violate("C15.step", "config-changed", fmt.Sprintf("%s: identifier / start time / duration changed by a block: %s -> %s", p.Identifier, fmtEpochFields(p), fmtEpochFields(q)), hist)
+				}
+				// the notifications of THIS block for THIS identifier: exactly the ones of the case above
+				env.Eval("C15.events")
+				if got := strings.Join(perID[epochID(p.Identifier)], ","); got != wantEvs {
+					env.Violate("C15.events", "block-events", fmt.Sprintf("%s: block at %s notified [%s], expected [%s] (before the block: %s)", p.Identifier, bt.UTC(), got, wantEvs, fmtEpochFields(p)), hist)
 				}
 				tr := tracks[q.Identifier]
 				if tr != nil && tr.fromUnstarted && q.EpochCountingStarted {
@@ -242,26 +442,146 @@ func domEpochs(env *Env) error {
 					}
 				}
 			}
-			// notification stream: per identifier E n / S n+1 pairs, consecutive, once
+			// notification stream across blocks: per identifier E n / S n+1 pairs, consecutive, once;
+			// the first start of an identifier that had not started counting is start 1, and no end
+			// comes before it
 			for _, ev := range evs {
 				f := strings.Split(ev, ":")
 				num, _ := strconv.ParseInt(f[2], 10, 64)
-				tr := tracks[f[1]]
+				id := f[1]
+				if id == "<empty>" {
+					id = ""
+				}
+				tr := tracks[id]
 				if tr == nil {
 					env.Violate("C15.events", "unknown-id", "event for unknown identifier "+ev, hist)
 					continue
 				}
-				env.Eval("C15.events")
 				if f[0] == "S" {
+					tr.starts++
 					if tr.known && num != tr.lastStarted+1 || !tr.known && num != 1 {
-						env.Violate("C15.events", "start-order", fmt.Sprintf("start %s out of order (last started %d)", ev, tr.lastStarted), hist)
+						env.Violate("C15.events", "start-order", fmt.Sprintf("start %s out of order (last started %d, counting started: %v)", ev, tr.lastStarted, tr.known), hist)
 					}
 					tr.lastStarted = num
 					tr.known = true
 				} else {
+					tr.ends++
 					if !tr.known || num != tr.lastStarted {
-						env.Violate("C15.events", "end-order", fmt.Sprintf("end %s without matching start (last started %d)", ev, tr.lastStarted), hist)
+						env.Violate("C15.events", "end-order", fmt.Sprintf("end %s without matching start (last started %d, counting started: %v)", ev, tr.lastStarted, tr.known), hist)
 					}
+				}
+			}
+			if len(env.Report.Violations) > nv {
+				violated = true
+			}
+		}
+
+		// block 1 (BeginBlock ran inside NewChain)
+		cur := c.App.EpochsKeeper.AllEpochInfos(c.Ctx)
+		evs := epochEvents(c.Boot.Events)
+		emit(fmt.Sprintf("epoch.block %s %d", tnsX(c.Header.Time), c.Header.Height), fmtEpochInfos(cur)+"|"+strings.Join(evs, ","))
+		ticks += len(evs)
+		checkBlock(registered, cur, evs, c.Header.Time)
+
+		nb := 10 + rng.Intn(maxBlocks)
+		var script []string
+		if directed { // aimed at s0 (start 10 s after genesis, 7 s long)
+			script = []string{"eq", "sub", "start-1", "start", "eq", "sub", "end", "end+1", "gap", "eq", "ns", "ns", "eq", "end", "end+1"}
+		}
+		for b := 0; b < nb && !violated; b++ {
+			prev := c.App.EpochsKeeper.AllEpochInfos(c.Ctx)
+			now := c.Header.Time
+			var d time.Duration
+			if b < len(script) {
+				var s0 epochstypes.EpochInfo
+				for _, e := range prev {
+					if e.Identifier == "s0" {
+						s0 = e
+					}
+				}
+				until := func(t time.Time) time.Duration {
+					if t.After(now) && t.Sub(now) < 400*24*time.Hour {
+						return t.Sub(now)
+					}
+					return 0
+				}
+				switch script[b] {
+				case "eq":
+					d = 0
+				case "ns":
+					d = 1
+				case "sub":
+					d = s0.Duration / 3
+				case "start-1":
+					d = until(s0.StartTime.Add(-1))
+				case "start":
+					d = until(s0.StartTime)
+				case "end":
+					d = until(s0.CurrentEpochStartTime.Add(s0.Duration))
+				case "end+1":
+					d = until(s0.CurrentEpochStartTime.Add(s0.Duration + 1))
+				case "gap":
+					d = 3*s0.Duration + 5
+				}
+			} else {
+				switch rng.Pick(2, 3, 3, 4, 3, 2) {
+				case 0:
+					d = 0
+				case 1:
+					d = time.Duration(1 + rng.Intn(3))
+				case 2:
+					d = time.Duration(1+rng.Intn(30)) * time.Second
+				case 3: // aim at a boundary of some identifier: exactly, one ns before, one ns after
+					e := prev[rng.Intn(len(prev))]
+					target := e.CurrentEpochStartTime.Add(e.Duration)
+					if !e.EpochCountingStarted {
+						target = e.StartTime
+					}
+					target = target.Add(time.Duration(rng.Intn(3) - 1))
+					if target.After(now) && target.Sub(now) < 400*24*time.Hour {
+						d = target.Sub(now)
+					} else {
+						d = time.Duration(rng.Intn(5))
+					}
+				case 4: // multi-duration gap
+					e := prev[rng.Intn(len(prev))]
+					d = time.Duration(1+rng.Intn(5))*e.Duration + time.Duration(rng.Intn(3))
+					if d > 60*24*time.Hour {
+						d = 60 * 24 * time.Hour
+					}
+				case 5:
+					d = time.Duration(rng.Intn(3)) * time.Hour
+				}
+			}
+			r := c.EndAndBegin(d)
+			if r.Halt != "" {
+				env.Violate("C15.halt", "halt", "block processing panicked: "+r.Halt, hist)
+				break
+			}
+			cur := c.App.EpochsKeeper.AllEpochInfos(c.Ctx)
+			evs := epochEvents(r.Begin.Events)
+			emit(fmt.Sprintf("epoch.block %s %d", tnsX(c.Header.Time), c.Header.Height), fmtEpochInfos(cur)+"|"+strings.Join(evs, ","))
+			ticks += len(evs)
+			checkBlock(prev, cur, evs, c.Header.Time)
+		}
+		// ---- whole history: the number an identifier ends with counts its start notifications —
+		// from 0 if it had not started counting when it was registered (whatever number it carried)
+		if !violated {
+			env.Eval("C15.count")
+			for _, q := range c.App.EpochsKeeper.AllEpochInfos(c.Ctx) {
+				tr := tracks[q.Identifier]
+				if tr == nil {
+					continue
+				}
+				base := tr.first
+				if tr.fromUnstarted {
+					base = 0
+					if !q.EpochCountingStarted {
+						base = q.CurrentEpoch // never reached its start time: untouched
+					}
+				}
+				if q.CurrentEpoch != base+int64(tr.starts) || tr.starts-tr.ends != ebit(tr.fromUnstarted && q.EpochCountingStarted) {
+					env.Violate("C15.count", "count-mismatch", fmt.Sprintf("%s: registered with number %d (counting started: %v), %d start and %d end notifications, number now %d", q.Identifier, tr.first, !tr.fromUnstarted, tr.starts, tr.ends, q.CurrentEpoch), hist)
 				}
 			}
 		}
